@@ -536,8 +536,24 @@ def check_cache(seed, n_cases, n_max=4):
     viol, cases = [], 0
     tmp = tempfile.mkdtemp(prefix="tawazi_cache_")
     try:
+        # deterministic: the node of cache_deps_of / target_nodes is named by REFERENCE while another node carries a tag
+        # spelled like its id: the file leaves out (resp. the run selects) that very node, not the tagged one
+        for mode in ("deps_of", "target"):
+            nodes = [dict(id="a", deps=[], prio=0, seq=False, res="thread"), dict(id="n", deps=[("a", [])], prio=0, seq=False, res="thread"),
+                     dict(id="o", deps=[], prio=0, seq=False, res="thread", tag="n")]
+            cw = World(nodes)
+            cases += 1
+            v = one_cache(cw, mode, ["n"], os.path.join(tmp, f"d_{mode}.pkl"), by_ref=True)
+            if v:
+                viol.append(dict(kind="history", check="cache", seed=seed, index=-cases, world=cw.describe(), mode=mode, pick=["n"], by_reference=True, violations=v))
         for idx in range(n_cases):
             w = rand_world(rnd, rnd.randint(2, n_max), setup_p=0.2)
+            if idx % 3 == 1:
+                # a DAG with an input argument, supplied (as an equal, not identical, value) to the caching run and to the restart
+                w.inputs = ["h>!>p0"]
+                for nid in [n_ for n_ in roots(w) if not w.nodes[n_].get("setup")][:2]:
+                    w.nodes[nid]["deps"] = [("h>!>p0", [])]
+                w.call_args = (rnd.choice(["a string argument", ("tuple", 300), 123456, 2.5]),)
             mode = rnd.choice(["whole", "target", "deps_of", "deps_of"])
             pick = rnd.choice(w.order)
             if mode == "deps_of" and len(w.order) >= 2 and rnd.random() < 0.5:
@@ -553,16 +569,28 @@ def check_cache(seed, n_cases, n_max=4):
     return viol, cases
 
 
-def one_cache(w, mode, pick, path):
+def one_cache(w, mode, pick, path, by_ref=False):
     import pickle
 
     v = []
     dag = w.build_dag()
     picks = pick if isinstance(pick, list) else [pick]
-    kw = {"whole": {}, "target": {"target_nodes": picks}, "deps_of": {"cache_deps_of": picks}}[mode]
+
+    class _KW(dict):
+        """the selection keywords; with by_ref the nodes are named by REFERENCE (resolved per DAG instance)"""
+
+    def mk_kw(d):
+        sel = [d.exec_nodes[i] for i in picks] if by_ref else picks
+        return {"whole": {}, "target": {"target_nodes": sel}, "deps_of": {"cache_deps_of": sel}}[mode]
+
+    kw = mk_kw(dag)
     ex = dag.executor(cache_in=path, **kw)
     w.calls = {}
-    o1, _ = run_controlled(lambda: ex(), w)
+    import copy as _copy
+
+    args = tuple(getattr(w, "call_args", ()))
+    fresh_args = lambda: tuple(_copy.deepcopy(a) for a in args)  # noqa: E731  (equal values, other objects - as after a new process)
+    o1, _ = run_controlled(lambda: ex(*fresh_args()), w)
     if o1[0] != "return":
         return [f"caching run raised {o1[1]!r}"]
     ran1 = set(w.calls)
@@ -574,11 +602,11 @@ def one_cache(w, mode, pick, path):
         if not need <= set(content):
             v.append(f"cache_deps_of={picks}: the file misses dependencies {sorted(need - set(content))}")
     # restart on a FRESH instance of the same DAG (new process in real life)
-    w2 = World([dict(n) for n in w.nodes.values()], w.max_concurrency)
+    w2 = World([dict(n) for n in w.nodes.values()], w.max_concurrency, consts=dict(w.consts), inputs=list(w.inputs))
     dag2 = w2.build_dag()
-    ex2 = dag2.executor(from_cache=path, **kw)
+    ex2 = dag2.executor(from_cache=path, **mk_kw(dag2))
     w2.calls = {}
-    o2, _ = run_controlled(lambda: ex2(), w2)
+    o2, _ = run_controlled(lambda: ex2(*fresh_args()), w2)
     if o2[0] != "return":
         return v + [f"restart raised {o2[1]!r}"]
     if o2[1] != o1[1] and mode != "deps_of":
@@ -591,11 +619,12 @@ def one_cache(w, mode, pick, path):
     # a second caching run overwrites the file; a later restart must see the new content
     w.nodes[w.order[0]]["value"] = ("changed",)
     dag3 = w.build_dag()
-    ex3 = dag3.executor(cache_in=path, **kw)
-    o3, _ = run_controlled(lambda: ex3(), w)
-    w4 = World([dict(n) for n in w.nodes.values()], w.max_concurrency)
-    ex4 = w4.build_dag().executor(from_cache=path, **kw)
-    o4, _ = run_controlled(lambda: ex4(), w4)
+    ex3 = dag3.executor(cache_in=path, **mk_kw(dag3))
+    o3, _ = run_controlled(lambda: ex3(*fresh_args()), w)
+    w4 = World([dict(n) for n in w.nodes.values()], w.max_concurrency, consts=dict(w.consts), inputs=list(w.inputs))
+    dag4 = w4.build_dag()
+    ex4 = dag4.executor(from_cache=path, **mk_kw(dag4))
+    o4, _ = run_controlled(lambda: ex4(*fresh_args()), w4)
     if o3[0] == "return" and o4[0] == "return" and mode != "deps_of" and o4[1] != o3[1]:
         v.append(f"restart after the file was rewritten returned stale {o4[1]!r} instead of {o3[1]!r}")
     return v
